@@ -13,6 +13,11 @@ SAFE = ["C06_OwnReplyOnly", "C06_AtMostOneReply", "C06_OutcomeConsistent", "C06_
 
 def run(ctx):
     quick = ctx.tier == "quick"
+    if ctx.replay and json.load(open(ctx.replay))["case"].get("family") == "iter":
+        import itercommon
+        part = itercommon.run_part(ctx)
+        ctx.write_evidence("model_checking", {"replayed": ctx.replay, "iterators_and_commands": part})
+        return
     mc = ctx.model_check("MCCorrelate", cc.MC_SAFE % dict(reqs='{"i1", "m1"}' if quick else '{"i1", "i2", "p1"}',
                                                          kind="Kind2" if quick else "Kind3", maxpeer=2 if quick else 3), SAFE, timeout=2400)
     lv1 = ctx.model_check("MCCorrelate", cc.MC_LIVE % dict(spec="FairSpec", props="PROPERTY C06_ReqsTerminate\nPROPERTY C06_ServeNeverStalls"),
@@ -57,6 +62,11 @@ def run(ctx):
             parts.update(ibbcommon.run_c06_part(ctx))
         else:
             ctx.notes.append("IBB part of C06 not integrated yet")
+        # growth family: iterators over a response (IterIQ, paging, roster / blocklist / pubsub / bookmarks /
+        # disco / history) and ad-hoc command sessions hold the response of a correlated request for a long
+        # time - their release rules (Iter.tla, Commands.tla) decide whether the serve loop resumes
+        import itercommon
+        parts["iterators_and_commands"] = itercommon.run_part(ctx)
     ctx.write_evidence("model_checking", {
         "states": mc.distinct, "transitions": mc.generated,
         "liveness_states": lv1.distinct + lv2.distinct,
